@@ -3160,6 +3160,21 @@ void ADFH_Link(const double  pid,
   ADFH_DEBUG(("ADFH_Link [%s][%s][%s]",name,file,name_in_file));
 
   ROOT_OR_DIE(err);
+  /* the strings are checked before the node is created: the target path is
+     not empty, neither string is longer than the buffers of ADFH_Get_Link */
+  if (file == NULL || name_in_file == NULL) {
+    set_error(NULL_STRING_POINTER, err);
+    return;
+  }
+  if (*name_in_file == 0) {
+    set_error(STRING_LENGTH_ZERO, err);
+    return;
+  }
+  if (strlen(name_in_file) > ADF_MAX_LINK_DATA_SIZE ||
+      strlen(file) > ADF_FILENAME_LENGTH) {
+    set_error(STRING_LENGTH_TOO_BIG, err);
+    return;
+  }
   ADFH_Create(pid, name, id, err);
 
   if (*err != NO_ERROR) return;
